@@ -100,6 +100,17 @@ def run(args) -> int:
             jobs.append(dict(base, role='base', group=gid))
             jobs.append(dict(base, role='reflexive', group=gid, concl_from_prems=3))
             jobs.append(dict(base, role='monotone', group=gid, extra=lit))
+        if L['modal']:
+            # a modal theorem stays proved when premises are added that bring the branch up to its projected number of worlds
+            C2 = ['A', 2]
+            thm = ['U', 'Negation', ['M', 'Possibility', ['B', 'Conjunction', ['M', 'Necessity', C2], ['U', 'Negation', C2]]]]
+            LMa, LMb = (['M', 'Necessity', ['M', 'Possibility', ['A', k_]]] for k_ in (0, 1))
+            for prems in ([], [LMa]):
+                gid = len(jobs)
+                base = dict(logic=n, premises=prems, conclusion=thm, configs=CFG, timeout_ms=2500)
+                jobs.append(dict(base, role='base', group=gid))
+                for extra in (LMb, ['M', 'Possibility', ['A', 1]], ['M', 'Necessity', ['A', 1]]):
+                    jobs.append(dict(base, role='monotone', group=gid, extra=extra))
         if 'SelfIdentityClosure' in L['closure']:
             # monotonicity around identity: m = n, Fm |- ~~Fn stays valid whatever else mentions m, wherever it is added
             m_, n_ = ['c', 0, 0], ['c', 1, 0]
